@@ -501,12 +501,20 @@ def replay_build_history(h, d, salt=0):
 
 def child_build(hists_f, out_f, workdir):
     U, D = _import_cython()
-    # import everything a compilation needs now, so that the forked workers start fast;
-    # nothing is scanned or compiled in this process
-    import Cython.Compiler.Main, Cython.Compiler.Pipeline, Cython.Compiler.ModuleNode  # noqa
-    import Cython.Compiler.Optimize, Cython.Compiler.ParseTreeTransforms, Cython.Compiler.Parsing  # noqa
-    import Cython.Compiler.FusedNode, Cython.Compiler.TypeInference, Cython.Compiler.Buffer  # noqa
+    # Warm-up: one plain compilation (Cython.Compiler only, no Cython.Build code involved) of an
+    # unrelated file, so that the forked workers inherit the loaded utility code, scanner tables
+    # etc. and start fast.  Nothing is ever scanned by Cython.Build.Dependencies in this process:
+    # its memo tables are empty at every fork (asserted below) -- the state of a fresh interpreter.
     import distutils.extension  # noqa
+    from Cython.Compiler import Main
+    wd = os.path.join(workdir, "warmup")
+    os.makedirs(wd, exist_ok=True)
+    with open(os.path.join(wd, "warm.pxd"), "w") as fh:
+        fh.write("ctypedef int t_warm\n")
+    with open(os.path.join(wd, "warm.pyx"), "w") as fh:
+        fh.write("def f_warm():\n    return 1\n")
+    Main.compile_single(os.path.join(wd, "warm.pyx"), Main.CompilationOptions(Main.default_options), None)
+    assert D._dep_tree is None and D.parse_dependencies.cache_info().currsize == 0
     n = nb = 0
     with open(hists_f) as f, open(out_f, "w") as out:
         for idx, line in enumerate(f):
@@ -520,13 +528,206 @@ def child_build(hists_f, out_f, workdir):
                 mm["hist"] = h
                 out.write(json.dumps(mm) + "\n")
                 out.flush()
-    assert D._dep_tree is None, "driver process must never scan"
+    assert D._dep_tree is None and D.parse_dependencies.cache_info().currsize == 0, "driver process must never scan"
     print("@@" + json.dumps({"histories": n, "cythonize_steps": nb}))
+
+
+# ---- generated sources (spec/DepTreeSrc.tla) --------------------------------
+
+FORM_TEXT = {
+    "cim_b": "cimport b", "cim_c": "cimport c",
+    "from_b": "from b cimport t_b", "from_c": "from c cimport t_c",
+    "cimsub": "cimport p.s", "fromsub": "from p.s cimport t_s",
+    "frompkg": "from p cimport s", "frompkgpar": "from p cimport (\n    s,\n)",
+    "reldot": "from . cimport s", "relmod": "from .s cimport t_s",
+    "inc": 'include "i.pxi"', "inc1": "include 'i.pxi'", "incns": 'include"i.pxi"',
+}
+QUOTE = {"s1": "'", "d1": '"', "s3": "'" * 3, "d3": '"' * 3}
+UNIVERSE = {
+    "b.pxd": "ctypedef int t_b\n", "c.pxd": "ctypedef int t_c\n", "i.pxi": "# top-level include file\n",
+    "p/__init__.py": "", "p/__init__.pxd": "# package p\n", "p/s.pxd": "ctypedef int t_s\n",
+    "p/c.pxd": "ctypedef int t_pc\n", "p/i.pxi": "# include file of package p\n",
+}
+RESOLVE = {  # mirror of Resolve() in the spec, used only to attribute a missed file to statements
+    "cim_b": ["b.pxd"], "from_b": ["b.pxd"], "cim_c": ["c.pxd"], "from_c": ["c.pxd"],
+    "cimsub": ["p/s.pxd"], "fromsub": ["p/s.pxd"], "relmod": ["p/s.pxd"],
+    "frompkg": ["p/__init__.pxd", "p/s.pxd"], "frompkgpar": ["p/__init__.pxd", "p/s.pxd"],
+    "reldot": ["p/__init__.pxd", "p/s.pxd"],
+}
+
+
+def resolve(form, loc):
+    if form in RESOLVE:
+        return list(RESOLVE[form])
+    return ["p/i.pxi" if loc == "pkg" else "i.pxi"]
+
+
+def render_source(toks):
+    """text of a program of spec/DepTreeSrc.tla"""
+    out = []
+    q = None
+    for a in toks:
+        if a.startswith("s:"):
+            out.append(FORM_TEXT[a[2:]])
+        elif a.startswith("t:"):
+            out.append(FORM_TEXT[a[2:]] + " ")
+        elif a == "asg":
+            out.append("v = ")
+        elif a == "cont":
+            out.append("\\\n")
+        elif a.startswith("o:"):
+            _, p, q = a.split(":")
+            out.append(p + QUOTE[q])
+        elif a == "close":
+            out.append(QUOTE[q])
+            q = None
+        elif a == "hash":
+            out.append("#")
+        elif a == "nl":
+            out.append("\n")
+        elif a == "semi":
+            out.append("; ")
+        elif a.startswith("c:"):
+            c = a[2:]
+            ch = QUOTE[q][0]
+            other = '"' if ch == "'" else "'"
+            out.append({"nl": "\n", "oq": other, "sq": ch + " ", "eq": "\\" + ch, "ebs": "\\\\", "h": "#",
+                        "fb": "{id}", "fbb": "{{", "adj": ch + ch + "x"}[c])
+        elif a.startswith("k:"):
+            out.append({"s1": "'", "d1": '"', "s3": "'" * 3, "d3": '"' * 3, "bs": "\\"}[a[2:]])
+        else:
+            raise ValueError(a)
+    return "".join(out)
+
+
+def tokenize_statements(text):
+    """Oracle P (CPython's tokenizer): the cimport / include statements of a program as
+    [(ctx, normalised token text)], ctx = 'bol' | 'semi'.  Raises on a lexically invalid program."""
+    import io
+    import tokenize as T
+    toks = list(T.generate_tokens(io.StringIO(text).readline))
+    res = []
+    start = True
+    ctx = "bol"
+    i = 0
+    n = len(toks)
+    while i < n:
+        t = toks[i]
+        if t.type in (T.NL, T.NEWLINE):
+            start, ctx = True, "bol"
+        elif t.type in (T.COMMENT, T.INDENT, T.DEDENT, T.ENCODING, T.ENDMARKER):
+            pass
+        elif t.type == T.OP and t.string == ";":
+            start, ctx = True, "semi"
+        elif start:
+            start = False
+            if t.type == T.NAME and t.string in ("cimport", "from", "include"):
+                j = i
+                words = []
+                while j < n and not (toks[j].type == T.NEWLINE or (toks[j].type == T.OP and toks[j].string == ";")):
+                    if toks[j].type not in (T.NL, T.COMMENT):
+                        words.append(toks[j].string)
+                    j += 1
+                if t.string == "cimport" or (t.string == "from" and "cimport" in words) or \
+                        (t.string == "include" and len(words) == 2 and words[1][:1] in "'\""):
+                    res.append((ctx, " ".join(words)))
+                i = j
+                continue
+        i += 1
+    return res
+
+
+def spec_statements(reals):
+    import io
+    import tokenize as T
+    out = []
+    for r in reals:
+        ws = [t.string for t in T.generate_tokens(io.StringIO(FORM_TEXT[r["form"]] + "\n").readline)
+              if t.type not in (T.NL, T.NEWLINE, T.COMMENT, T.ENDMARKER)]
+        out.append((r["ctx"], " ".join(ws)))
+    return out
+
+
+def src_expected(case):
+    exp = set()
+    for r in case["reals"]:
+        exp.update(resolve(r["form"], case["loc"]))
+    return exp
+
+
+def write_universe(root):
+    for rel, text in UNIVERSE.items():
+        pth = os.path.join(root, rel)
+        os.makedirs(os.path.dirname(pth), exist_ok=True)
+        with open(pth, "w") as f:
+            f.write(text)
+
+
+def child_scan(cases_f, out_f, root):
+    """cases: {id, loc, text, compile}; writes {id, deps, scan, reads, errors}."""
+    U, D = _import_cython()
+    from Cython.Compiler import Main
+    from Cython.Compiler.Main import Context
+    from Cython.Compiler.Options import CompilationOptions, default_options
+    write_universe(root)
+    os.chdir(root)
+    reads = set()
+    state = {"on": False}
+
+    def hook(event, args):
+        if state["on"] and event == "open" and isinstance(args[0], str) and args[0].endswith((".pxd", ".pxi", ".pyx")):
+            ap = os.path.abspath(args[0])
+            if ap.startswith(root + os.sep):
+                reads.add(os.path.relpath(ap, root))
+    sys.addaudithook(hook)
+    n = nc = 0
+    with open(cases_f) as f, open(out_f, "w") as out:
+        for line in f:
+            c = json.loads(line)
+            fn = ("p/m%d.pyx" if c["loc"] == "pkg" else "m%d.pyx") % c["id"]
+            with open(fn, "w") as fh:
+                fh.write(c["text"])
+            rec = {"id": c["id"]}
+            try:
+                options = CompilationOptions(default_options, include_path=["."])
+                tree = D.DependencyTree(Context.from_options(options), quiet=True)
+                rec["deps"] = sorted(os.path.normpath(p) for p in tree.all_dependencies(fn) if os.path.normpath(p) != fn)
+                pd = D.parse_dependencies(fn)
+                rec["scan"] = [sorted(pd[0]), sorted(pd[1])]
+            except Exception as ex:
+                rec["deps_error"] = "%s: %s" % (type(ex).__name__, str(ex)[:300])
+            n += 1
+            if c.get("compile"):
+                nc += 1
+                reads.clear()
+                import io
+                so, se = sys.stdout, sys.stderr
+                sys.stdout = sys.stderr = buf = io.StringIO()
+                state["on"] = True
+                try:
+                    r = Main.compile_single(fn, CompilationOptions(default_options, include_path=["."]), None)
+                    rec["errors"] = r.num_errors
+                except BaseException as ex:
+                    rec["errors"] = -1
+                    rec["compile_exc"] = "%s: %s" % (type(ex).__name__, str(ex)[:300])
+                finally:
+                    state["on"] = False
+                    sys.stdout, sys.stderr = so, se
+                rec["reads"] = sorted(p for p in reads if p != fn)
+                if rec["errors"]:
+                    rec["messages"] = buf.getvalue()[-600:]
+                try:
+                    os.remove(fn[:-4] + ".c")
+                except OSError:
+                    pass
+            os.remove(fn)
+            out.write(json.dumps(rec) + "\n")
+    print("@@" + json.dumps({"cases": n, "compiled": nc}))
 
 
 if __name__ == "__main__":
     cmd = sys.argv[1]
-    a = sys.argv[2:]
+    a = [os.path.abspath(x) if (os.sep in x or x.endswith(".ndjson")) else x for x in sys.argv[2:]]
     if cmd == "memo":
         child_memo(a[0], a[1])
     elif cmd == "sweep":
